@@ -131,3 +131,62 @@ func TestRecvChanExpression(t *testing.T) {
 		t.Fatalf("findings %v outcomes %v", fs, st.Outcomes)
 	}
 }
+
+// A worker goroutine of the code under test that waits for work for ever is parked, not
+// deadlocked: Join is released, the body continues, and the execution ends normally.
+func TestParkedWorkerIsNotADeadlock(t *testing.T) {
+	var parked int
+	sc := Scenario{Name: "t", New: func() Instance {
+		return &chanInst{body: func(log *[]string) {
+			queue := MakeChan(make(chan int, 4))
+			done := MakeChan(make(chan int))
+			GoLib(func() {
+				for {
+					v, ok := RecvOk[int](queue)
+					if !ok {
+						return
+					}
+					Send(done, v*10)
+				}
+			})
+			Go(func() { Send(queue, 1); logAdd(log, fmt.Sprint(RecvT[int](done))) })
+			Go(func() { Send(queue, 2); logAdd(log, fmt.Sprint(RecvT[int](done))) })
+			Join()
+			logAdd(log, "joined")
+			Send(queue, 3)
+			logAdd(log, fmt.Sprint(RecvT[int](done)))
+		}}
+	}}
+	st, fs := Explore(sc, Opts{Bound: 2, Recheck: 1})
+	if len(fs) != 0 {
+		t.Fatalf("findings %v", fs)
+	}
+	for o := range st.Outcomes {
+		if !(o == "[10 20 joined 30]" || o == "[20 10 joined 30]") {
+			t.Fatalf("unexpected outcome %s", o)
+		}
+	}
+	if len(st.Outcomes) != 2 {
+		t.Fatalf("outcomes %v", st.Outcomes)
+	}
+	_, res := RunOnce(sc, nil, nil, nil, false)
+	parked = res.Parked
+	if parked != 1 || res.Status != StatusOK {
+		t.Fatalf("parked %d status %v", parked, res.Status)
+	}
+}
+
+// ...but a harness task that can never continue is a deadlock, parked workers or not,
+// and so is a task of the code under test stuck on a lock.
+func TestDeadlockDespiteParkedWorker(t *testing.T) {
+	_, fs := explore(t, func(log *[]string) {
+		queue := MakeChan(make(chan int))
+		never := MakeChan(make(chan int))
+		GoLib(func() { RecvT[int](queue) })
+		Go(func() { RecvT[int](never) })
+		Join()
+	})
+	if len(fs) != 1 || fs[0].V.Kind != "deadlock" {
+		t.Fatalf("want a deadlock, got %v", fs)
+	}
+}
